@@ -56,17 +56,47 @@ PROPS = {
     },
     'C19': {
         'level_text': 'Coq theorems (Properties/C19.v) about a model of boomphf 0.6.0 written from its vendored source '
-                      '(coq/Algo/BBHash.v): UNDER CONSTRUCTION - see the theorem list in Properties/C19.v.',
-        'level_note': 'proof for the model; partial for the runtime: real rayon work splitting, hardware memory ordering and '
-                      'boomphf\'s word-level rank/popcount code are NOT covered by the proof, only by the sampled runs '
-                      '(pool sizes 1,2,3,4,8,16, repeated).',
-        'technique': 'invariants over the reachable states of a small-step interleaving semantics (Coq) + induction over levels; '
-                     'differential run: finish() under thread pools vs finish_serial(), list-level lookup specification, BBHash model '
-                     'fed with recomputed wyhash slots',
+                      '(coq/Algo/BBHash.v: Mphf::new as a function, Mphf::new_parallel as a relation over a small-step interleaving '
+                      'semantics - one thread per key running the atomic steps of Context::find_collisions, a Relaxed read of collide may '
+                      'return a stale false; then the steps of Context::filter). Proved for every number of keys, slots and steps: '
+                      'level_schedule_independent (invariants over all reachable states: after any complete interleaving a[s] = "some key on s", '
+                      'collide[s] = "two or more keys on s"); filter_schedule_independent; level_par_eq_serial, mphf_parallel_eq_serial '
+                      '(induction over levels, incl. the MAX_ITERS panic), finish_eq_finish_serial (structural equality of base graph, '
+                      'both MPHFs and both key/value tables, hence of every query and of every run); mphf_perfect (total, injective, '
+                      'onto [0,n), and every hit of a foreign item lands on some key\'s value) when construction terminates on duplicate-free '
+                      'keys; lookup_exact (get never panics, Some v iff (k,v) stored); search_kmer_exact / find_link_exact(_parallel): '
+                      'find_link = the list-level specification "the node that starts/ends with the k-mer (or its rc)". Strengthening '
+                      '(mphf_parallel_any_collect_order, mphf_key_order_irrelevant): the MPHF is a function of the key SET, so the result '
+                      'is the serial one even if collect() returned the redo keys in any order.',
+        'level_note': 'proof for the model; PARTIAL for the runtime: NOT covered by the proof are (1) what rayon really does - work splitting, '
+                      'the join between the two phases being a synchronisation (filter_map().collect() preserving input order is assumed by '
+                      'finish_eq_finish_serial but shown unnecessary by mphf_parallel_any_collect_order), (2) hardware memory ordering beyond "fetch_or/fetch_and are linearizable per bit and a Relaxed load of collide '
+                      'may be stale", (3) boomphf\'s word-level code: 64-bit word packing, rank samples every 512 bits, count_ones, fastmod, '
+                      'wyhash, the f64 level size, and the in-place cycle sort of create_map (modelled by its result keys[hash k] = k). '
+                      'These are exercised only by the runs: finish() under pools of 1,2,3,4,8,16 threads, repeated, compared byte for byte '
+                      '(serde_json) and query by query with finish_serial(); level bit vectors and table order predicted by the model from '
+                      'the recomputed wyhash slots; the interleaving semantics itself run under random schedules against the real level 0.',
+        'technique': 'invariants over the reachable states of a small-step interleaving semantics + induction over levels + counting '
+                     'argument for perfectness (Coq); differential run: finish() under thread pools vs finish_serial(), list-level lookup '
+                     'specification, BBHash model fed with recomputed wyhash slots',
         'rule': 'graphs from structured read sets through filter_kmers/compress_kmers_with_hash (K=5,6,8,16,32,48; stranded and not; '
-                'both compression specs) and directly added random nodes, 0 to 2*10^4 nodes (quick) / 4*10^5 (thorough); each '
-                'finished under pools of 1,2,3,4,8,16 threads, repeated; non-trivial = at least 2 nodes and at least one slot '
-                'collision (a second BBHash level)',
-        'assumptions': [],
+                'both compression specs) and directly added random nodes (one k-mer per node, or K..K+24 bases), 0 to 2*10^4 nodes (quick) / '
+                '4*10^5 (thorough); each finished under pools of 1,2,3,4,8,16 threads, 3-4 times each; queries: all four end k-mers of every '
+                'node and their reverse complements in both directions, random k-mers and one-base neighbours of ends (2n+40, 10^4 for large '
+                'graphs); non-trivial = at least 2 nodes and at least one slot collision (a second BBHash level)',
+        'theorems': ['C19_level_schedule_independent', 'C19_filter_schedule_independent', 'C19_level_par_eq_serial',
+                     'C19_mphf_parallel_eq_serial', 'C19_finish_eq_finish_serial', 'C19_mphf_perfect', 'C19_lookup_exact',
+                     'C19_search_kmer_exact', 'C19_find_link_exact', 'C19_find_link_exact_parallel',
+                     'C19_mphf_parallel_any_collect_order', 'C19_mphf_key_order_irrelevant'],
+        'trusted_extra': ['rayon: for_each returns after all items are processed and publishes their writes (join = synchronisation); '
+                          'filter_map(..).collect::<Vec<_>>() on an indexed parallel iterator preserves input order',
+                          'atomics: fetch_or / fetch_and on AtomicU64 are linearizable per location; a Relaxed load may return a stale value '
+                          '(modelled for collide, which is read while it is written; a is only accessed by read-modify-write)',
+                          'boomphf 0.6.0 as vendored (Cargo.lock checksum); MAX_ITERS = 100 and gamma = 1.7 are read from that source by hand',
+                          'the harness recomputation of boomphf\'s private hashmod with the wyhash crate (checked by agreement of bb.index)'],
+        'assumptions': ['hypotheses of the theorems: a slot is below the level size (h iter (sz n) k < sz n: fastmod / %); keys are '
+                        'duplicate-free (boomphf precondition; graphs: no two nodes share a first k-mer, nor a last k-mer) and construction '
+                        'terminated within MAX_ITERS levels (otherwise both builders panic alike - proved: same None)',
+                        'graph.rs finish/finish_serial/search_kmer/find_link are as transcribed in coq/Algo/BBHash.v (checked by this run)'],
     },
 }
